@@ -176,6 +176,9 @@ impl Shared {
             Op::InTz(t) => z.in_tz(self.zones[*t as usize].iana.as_deref().unwrap()).ok().map(|v| (v, *t, true)),
             Op::DateTimeToZoned => same(z.datetime().to_zoned(tz.clone())),
             Op::Ambiguous(d) => same(tz.to_ambiguous_zoned(z.datetime()).disambiguate(*d)),
+            // a POSIX zone has neither an IANA name nor a fixed offset: its
+            // printed form carries only the offset (not a claim of C09/C13)
+            Op::PrintParse if self.zones[zone as usize].name.starts_with("posix(") => None,
             Op::PrintParse => same(z.to_string().parse::<Zoned>()),
             Op::TimestampToZoned => Some((z.timestamp().to_zoned(tz.clone()), zone, false)),
             Op::UntilAdd(u) => {
@@ -419,8 +422,15 @@ fn load_zones(names: &[&str]) -> Vec<Zn> {
         v.push(Zn { name: n.to_string(), tz, iana: Some(n.to_string()) });
     }
     v.push(Zn { name: "fixed(+05:30)".into(), tz: TimeZone::fixed(Offset::from_seconds(19_800).unwrap()), iana: None });
+    // a synthetic zone whose "summer" regime (+2) lasts only 30 real minutes:
+    // a second transition lies within the first one's gap, which no IANA zone
+    // offers (the situation in which a gap's `after` offset is not the offset
+    // in force at the resolved instant)
+    v.push(Zn { name: format!("posix({})", SHORT_REGIME), tz: TimeZone::posix(SHORT_REGIME).expect("posix zone"), iana: None });
     v
 }
+
+const SHORT_REGIME: &str = "XXX0YYY-2,J100/0,J100/2:30";
 
 /// Initial instants of a zone: epoch, `k` transitions within 1900..2040 each at
 /// -1 ns, 0, +1 h, and the range limits moved inward by three days.
@@ -428,8 +438,13 @@ fn init_instants(name: &str, k: usize) -> Vec<i128> {
     let ts_min = Timestamp::MIN.as_nanosecond();
     let ts_max = Timestamp::MAX.as_nanosecond();
     let mut v: Vec<i128> = vec![0, ts_min + 3 * 86_400 * NS, ts_max - 3 * 86_400 * NS];
-    if let Ok(bytes) = std::fs::read(format!("{}/{}", SYS, name)) {
-        if let Ok(m) = rtz::zone_from_tzif(&bytes) {
+    let model = if let Some(p) = name.strip_prefix("posix(").and_then(|x| x.strip_suffix(')')) {
+        rtz::zone_from_posix(p.as_bytes()).ok()
+    } else {
+        std::fs::read(format!("{}/{}", SYS, name)).ok().and_then(|bytes| rtz::zone_from_tzif(&bytes).ok())
+    };
+    {
+        if let Some(m) = model {
             let lo = cal::days_from_civil(1900, 1, 1) * 86_400;
             let hi = cal::days_from_civil(2040, 1, 1) * 86_400;
             let ch: Vec<i64> = m.changing().into_iter().map(|i| m.pieces[i].start).filter(|s| *s >= lo && *s < hi).collect();
